@@ -7,8 +7,8 @@ Separate module: this fact changes with the repair of DESIGN §5 #1.
 namespace Convergen.Bridge
 open Convergen
 
-/-- the Go code stores the parser-wide defaults `p.opts`, and so does the model -/
-theorem intfEntryOpts_eq : Generated.intfEntryOpts = "p.opts" := by decide
-theorem model_stores_defaults (parsed defaults : Options) : storedIntfOpts parsed defaults = defaults := rfl
+/-- the Go code stores the options it has just parsed (`opts`), and so does the model -/
+theorem intfEntryOpts_eq : Generated.intfEntryOpts = "opts" := by decide
+theorem model_stores_parsed (parsed defaults : Options) : storedIntfOpts parsed defaults = parsed := rfl
 
 end Convergen.Bridge
